@@ -402,6 +402,9 @@ def r7_clear_sweeps_everything(ctx):
 
 
 def run(ctx):
+    # E-drop (rules/dropped.py): no bool result of a function of these modules is thrown away by a caller anywhere in the workspace
+    from . import dropped
+    dropped.rule_dropped(ctx, "C10.R8", [k for k in ["cascette_formats", "cascette_client_storage", "cascette_cache", "cascette_protocol", "cascette_ribbit"] if k in (CRATES or [])] or CRATES, r"cascette-cache/src/", floor=20)
     r6_stats_from_books(ctx)
     r7_clear_sweeps_everything(ctx)
     r4_store_errors(ctx)
@@ -412,4 +415,4 @@ def run(ctx):
 
 
 from .selftest import for_families as _ff  # noqa: E402
-selftest = _ff(['gate', 'lock', 'errflow'])
+selftest = _ff(['gate', 'lock', 'errflow', 'drop'])
